@@ -8,6 +8,7 @@ import (
 	"math/rand"
 	"os"
 	"path/filepath"
+	"regexp"
 	"strings"
 
 	"github.com/protobom/protobom/pkg/formats"
@@ -144,6 +145,11 @@ func c06Expect(b []byte) (formats.Format, string) {
 	if len(decl) != 1 || !strings.HasPrefix(decl[0], "SPDXVersion:") {
 		return "", ""
 	}
+	// a tag-value document starts with a "Tag: value" line; text that begins with a JSON value (null, a number, a string)
+	// is consumed by the JSON decoder first: undecided
+	if !tagLineRe.MatchString(strings.SplitN(strings.TrimLeft(s, " \t\r\n"), "\n", 2)[0]) {
+		return "", ""
+	}
 	switch strings.TrimSpace(strings.TrimPrefix(decl[0], "SPDXVersion:")) {
 	case "SPDX-2.2":
 		return formats.SPDX22TV, "ok"
@@ -154,6 +160,8 @@ func c06Expect(b []byte) (formats.Format, string) {
 	}
 	return "", ""
 }
+
+var tagLineRe = regexp.MustCompile(`^[A-Z][A-Za-z]*: `)
 
 func declOf(f formats.Format) (typ, ver, enc string) {
 	switch f {
